@@ -46,7 +46,10 @@ def run(an, opt_val, cfg):
     kw = lsq_inputs(K=cfg["K"], baseline=cfg["baseline"], W=cfg["W"], lb=cfg["lb"], ub="finite", bs=1)
     kw.update(base_kws())
     kw["underdetermined_opt"] = opt_val
-    kw["l2_eps"] = num("l2_eps", {"rho": 1, "w": 1} if cfg["K"] else {"c": 1, "w": 1}, sign="POS")
+    ueps = {"rho" if cfg["K"] else "c": 1}
+    if cfg["W"]:
+        ueps["w"] = 1          # without weights the residual is unweighted
+    kw["l2_eps"] = num("l2_eps", ueps, sign="POS")
     return an.run(f"{LSQ}:lsq_linear_underdetermined", kws=kw, config=cfgname(cfg))
 
 
@@ -92,7 +95,7 @@ def check(rep, an, tier):
     for label, v in (("bad string", strv("underdetermined_opt", "bogus")),):
         res = run(an, v, default)
         res.config = f"opt={label}"
-        rep.check("R-DISPATCH", f"{label} raises", bool(res.events("raise")) and not F.final_problems(res),
+        rep.check("R-DISPATCH", f"{label} raises", F.raises(res),
                   where=res.fn.loc(), construct=f"underdetermined_opt={label}", entry=entry, config=res.config)
     # fit-quality constraint, bounds, units — over the configuration axes
     for cfg in lsq_configs(tier, AXES):
